@@ -29,6 +29,30 @@ META = {
 }
 
 
+from rv.core import known_mechanisms
+
+KNOWN = known_mechanisms("C14")
+
+
+def known(ctx, finding):
+    """Replay the listed witness of the trunk-overhang finding."""
+    wit = finding["witness"]
+    scene = R.Scene(wit["case"])
+    params = R.perturbed_params(None, wit["orientation"])
+    stub = render_stub.Stub(swap=wit["orientation"] == "HORIZONTAL", lo=1, hi=wit["hi"])
+    lay, _ = R.draw(scene, params, stub)
+    L = R.extract_layout(scene, lay)
+    fails = R.judge_geometry(scene, L)
+    if any(m == "trunks_overhang" for m, _ in fails):
+        ctx.known.append(f"{finding['id']} {finding['text']}")
+    else:
+        ctx.notes.append(f"known finding {finding['id']} no longer reproduces")
+    for mon, msg in fails:
+        if mon != "trunks_overhang":
+            ctx.viol(f"C14.{mon}", wit["case"], msg)
+    ctx.count("evaluations")
+
+
 def plan(tier, seed):
     q = tier == "quick"
     n = 12 if q else 32
@@ -59,7 +83,10 @@ def check_scene(ctx, scene, rng):
         if perturb:
             ctx.count("perturbed_params")
         for mon, msg in R.judge_geometry(scene, L):
-            ctx.viol(f"C14.{mon}", dict(case, orientation=orient, perturbed=perturb, hi=hi), msg)
+            if mon == "trunks_overhang" and "trunk-overhang" in KNOWN:
+                ctx.count("known.F-TRUNK-OVERHANG_cases")  # listed known finding (mechanism), see DESIGN.md section 9
+                continue
+            ctx.viol(f"C14.{mon}", dict(case, orientation=orient, perturbed=perturb, hi=hi, pseed=pseed), msg)
         ctx.count("mon.twice")
         if R.layout_fingerprint(L) != R.layout_fingerprint(L2):
             ctx.viol("C14.twice", dict(case, orientation=orient, perturbed=perturb, hi=hi), "computing the layout twice gives different results")
@@ -90,8 +117,11 @@ def canaries(ctx):
     bad[kids[1]] = dict(bad[kids[1]], rect=bad[kids[0]]["rect"])
     ok &= any(m == "boxes" for m, _ in R.judge_geometry(scene, bad))
     bad2 = {s: dict(sl) for s, sl in LV.items()}
-    bad2[kids[1]] = dict(bad2[kids[1]], trunk=bad2[kids[0]]["trunk"])
-    ok &= any(m == "trunks" for m, _ in R.judge_geometry(scene, bad2))
+    bad2[kids[1]] = dict(bad2[kids[1]], trunk=bad2[kids[0]]["rect"])
+    ok &= any(m == "trunks_overhang" for m, _ in R.judge_geometry(scene, bad2))  # overlap outside the box of kids[1]
+    bad2b = {s: dict(sl) for s, sl in LV.items()}
+    bad2b[scene.S.root] = dict(bad2b[scene.S.root], trunk=bad2b[kids[0]]["rect"])
+    ok &= any(m == "trunks" for m, _ in R.judge_geometry(scene, bad2b))  # ancestor/descendant trunks: never the known mechanism
     bad3 = {s: dict(sl) for s, sl in LV.items()}
     bad3[kids[0]] = dict(bad3[kids[0]], anchors={})
     ok &= any(m == "anchors" for m, _ in R.judge_geometry(scene, bad3)) or not any(b["kind"] in ("SPECIATION", "FULL_LOSS") for b in LV[scene.S.root]["branches"])
@@ -126,7 +156,7 @@ def run(ctx, spec):
             if ctx.too_many():
                 return
     for _ in range(spec["nrand"]):
-        check_scene(ctx, R.Scene(R.make_case(rng, 10, 6)), rng)
+        check_scene(ctx, R.Scene(R.make_case(rng, 12, 8) if rng.random() < 0.4 else R.make_case(rng, 10, 6)), rng)
         if ctx.too_many():
             return
 
@@ -134,6 +164,6 @@ def run(ctx, spec):
 def replay(ctx, case):
     if case.get("kind") == "fixture":
         return fixtures(ctx, "C14", lambda scene, rng: check_scene(ctx, scene, rng))
-    base = {k: v for k, v in case.items() if k not in ("orientation", "perturbed", "hi")}
+    base = {k: v for k, v in case.items() if k not in ("orientation", "perturbed", "hi", "pseed")}
     for seed in range(6):
         check_scene(ctx, R.Scene(base), random.Random(seed))
